@@ -419,7 +419,7 @@ def check_case(case):
 # ============================================================================ generators
 ALPHABET = ["/", "\\", ".", "\t", " ", "\x01", "%", "@", ":", "?", "#", "a"]
 EXTRA = ["\r", "\n", "\x00", "\x1f", ";", "1", "+", "-", "A", "z", "\x7f", "\xa0", "\xe9", "2", "f", "h", "[", "=",
-         "\u212a", "\u017f", "\uff0f", "\u2028"]
+         "\u212a", "\u017f", "\uff0f", "\u2028", "\uff20", "\u2100"]
 SUFFIXES = ["", "evil.com", "evil.com/x", "@evil.com", "evil.com:80/x", "/evil.com/..", "http://evil.com", "%2f%2fevil.com",
             "\\evil.com", "evil.com?a#b", "../x", "./:x", "a1://evil.com", "svn+ssh://evil.com/", "javascript:alert(1)"]
 SEEDS = ["/\t/evil.com", "\t//evil.com", " //evil.com", "\x01//evil.com", "\thttp://evil.com", "//evil.com/x", "///evil.com",
@@ -571,10 +571,31 @@ def _report_corr(ctx, name, cases, bad):
                               % (name, json.dumps(case), cases[i][1]))
 
 
+NFKC_DELIM = [8263, 8264, 8265, 8448, 8449, 8453, 8454, 10868, 65043, 65046, 65109, 65110, 65119, 65131,
+              65283, 65295, 65306, 65311, 65312]      # = Model.C14_urlsplit.nfkc_delim
+
+
+def nfkc_table_problem():
+    """The hard-coded table behind the model's _checknetloc must be what this interpreter's unicodedata says."""
+    import sys
+    import unicodedata
+    cs = [c for c in range(128, sys.maxunicode + 1)
+          if any(d in unicodedata.normalize("NFKC", chr(c)) for d in "/?#@:")]
+    src = open(os.path.join(fw.COQ, "Model", "C14_urlsplit.v")).read()
+    m = re.search(r"Definition nfkc_delim : list N :=\s*\[(.*?)\]", src, flags=re.S)
+    coq = [int(x) for x in re.findall(r"\d+", m.group(1))] if m else None
+    if cs != NFKC_DELIM or coq != NFKC_DELIM:
+        return "nfkc_delim table out of date: unicodedata %s gives %r" % (unicodedata.unidata_version, cs)
+    return None
+
+
 def run(ctx):
     problems = gen(ctx)
     for p in problems:
         ctx.broken.append("translator: " + p)
+    p = nfkc_table_problem()
+    if p:
+        ctx.broken.append(p)
     ctx.build(["Props/C14.vo"])
     seed_stage(ctx)
     rng = ctx.sub_rng("corr")
@@ -696,7 +717,8 @@ def run(ctx):
         "ASCII without / ? # [ ] \\ and is not empty after removing the default port; SCRIPT_NAME and PATH_INFO are "
         "empty or start with '/' (theorems); IPv6-literal hosts are covered by the oracle only",
         "CPython 3.12 urllib.parse.urlsplit/urlparse/urljoin/quote as modelled in Model/C14_urlsplit.v (validated by "
-        "correspondence, not verified); _checknetloc/_check_bracketed_host are outside the model",
+        "correspondence, not verified); _checknetloc is modelled by a table checked against unicodedata on every run, "
+        "_check_bracketed_host is outside the model",
     ]
     ctx.trusted += [
         "regex translator in harness/props/c14.py (pattern text and flags read from the live objects, classes expanded "
